@@ -1502,7 +1502,16 @@ def c16_corpus(cfg):
             b"#{" + b" ".join(str(i).encode() for i in range(1100)) + b"}",
             b"#{" + b" ".join(("[%d]" % i).encode() for i in range(30)) + b"}",
             b"[" + b" ".join(b'"s%d\\n"' % i for i in range(40)) + b"]",
-            b"1." + b"5" * 600, b"[" + b"x" * 20000 + b" 1]"]
+            b"1." + b"5" * 600, b"[" + b"x" * 20000 + b" 1]",
+            # duplicates that only the hash-based / sort-based strategies see (rejected in the failure-free run:
+            # under a fault the result must stay an error)
+            b"#{" + b" ".join(("[%d]" % (i % 19)).encode() for i in range(20)) + b"}",
+            b"#{" + b" ".join(("[%d]" % i).encode() for i in range(19)) + b" [0]}",
+            b"{" + b" ".join(("(%d) 1" % (i % 25)).encode() for i in range(26)) + b"}",
+            b"#{" + b" ".join(str(i % 18).encode() for i in range(19)) + b"}",
+            b"#{" + b" ".join(("\"k%d\"" % (i % 1050)).encode() for i in range(1100)) + b"}",
+            b"#{" + b" ".join(("#t %d" % (i % 21)).encode() for i in range(22)) + b"}",
+            b"#{" + b" ".join(("%d00000000000000000000N" % (i % 17)).encode() for i in range(18)) + b"}"]
     if clj:
         docs += [b"^:a [1]", b"^{:a 1} ^:b ^\"T\" ^[x] (1)", b"#:n{:a 1 :b/c 2 :_/d 3}", b"1/2", b"99999999999999999999/3", b"0x10", b"[^:a]"]
     if exp:
@@ -1688,7 +1697,7 @@ def check_c19(res):
     for cfg in ("10", "11"):
         scripts, meta = [], []
         for _ in range(600 if thorough else 200):
-            ns = rnd.choice(["n", "my.ns", "a", "_x"])
+            ns = rnd.choice(["n", "my.ns", "a", "_x", "_", "_", "__", "other"])
             entries, expanded = [], []
             used = set()
             for i in range(rnd.randrange(0, 7)):
@@ -1699,6 +1708,8 @@ def check_c19(res):
                 elif kind == "kwq":
                     q = rnd.choice(["other", ns])
                     k = x = ":%s/%s" % (q, nm)
+                    if q == "_":
+                        x = ":" + nm                  # a key qualified with `_` is unqualified, whatever the prefix is
                 elif kind == "kw_":
                     k, x = ":_/" + nm, ":" + nm
                 elif kind == "sym":
@@ -1706,6 +1717,8 @@ def check_c19(res):
                 elif kind == "symq":
                     q = rnd.choice(["other", ns])
                     k = x = "%s/%s" % (q, nm)
+                    if q == "_":
+                        x = nm
                 elif kind == "sym_":
                     k, x = "_/" + nm, nm
                 elif kind == "str":
